@@ -24,7 +24,7 @@ core.setup_repo_path()
 ID = 'C17'
 LEVEL = 'model_checking'
 RULE = ('states = multiset of (job, diagnostics) already executed in the interpreter + class-level state (EconomicObject.ID, Logger handles); '
-        'transitions = one job; all sequences of length <= 2 over 21 jobs x 3 diagnostics settings (none, logging, logging+tracing+registered functions), and of length 3 (quick) / 4 (thorough) over a '
+        'transitions = one job; all sequences of length <= 2 over 23 jobs x 3 diagnostics settings (none, logging, logging+tracing+registered functions), and of length 3 (quick) / 4 (thorough) over a '
         'reduced alphabet (8 jobs, the whole sequence either undiagnosed or fully diagnosed); oracle: series (keys and values, ==) equal to the fresh-process baseline of that job; a re-parsed solver reports '
         'exactly the new block; non-trivial = sequences in which a job runs after another job or under a diagnostics setting')
 ASSUMPTIONS = [
@@ -35,14 +35,14 @@ BOUNDS = {'quick': {'full_len': 2, 'reduced_len': 3}, 'thorough': {'full_len': 2
 
 B1 = 'x = .5*x + y + 1\ny = .25*x + g\nz = x - y\nLAG_x = x(k-1)\nw = LAG_x + 1\nx(0) = 2.\n# exogenous\ng = [1., 2., 3., 4.]\nMaxTime = 3'
 B2 = 'p = .5*q + 2\nq = .5*p + t\nr = p\nMaxTime = 2'
-B3 = 'z = .5*LAG_z + 5.5\nLAG_z = z(k-1)\nz(0) = 2.\nMaxTime = 4'
+B3 = 'z = .5*LAG_z + 5.5 + .25*w\nw = .5*z + 1\nLAG_z = z(k-1)\nz(0) = 2.\nErr_Tolerance = 1e-10\nMaxTime = 4'     # (a within-period loop at a tight tolerance)
 B4 = 'x = f(y) + 1\ny = .25*x\nMaxTime = 2'
 B5 = 'x = .5*x + 3\nw = x + 1\nMaxTime = 2'     # only names that B1 also uses
 B6 = 'p = f(q)\nq = .25*p + 2\nMaxTime = 2'      # registers ANOTHER function under the name f
 B7 = 'w = .5*LAG_w + 1\nLAG_w = w(k-1)\nz = z + 0.01\nMaxTime = 2'   # steady-state search with z put on the exclusion list in place
 B8 = 'x = 1 - 3*x\ny = .5*y + 1\nMaxTime = 2'       # does not converge in period 1 (the period that is traced under full diagnostics)
 
-JOBS = ['M1', 'M2', 'M3', 'B1', 'B1nr', 'B2', 'B2nr', 'B3ss', 'B4f', 'B5', 'B5nr', 'B6g', 'B7excl', 'B8nc', 'M2i', 'RESOLVE', 'RESOLVE-B4f', 'REPARSE-B2', 'REPARSE-B1', 'REPARSE-B5', 'IDLE50']
+JOBS = ['M1', 'M2', 'M3', 'B1', 'B1nr', 'B2', 'B2nr', 'B3', 'B3ss', 'RESOLVE-B3plain', 'B4f', 'B5', 'B5nr', 'B6g', 'B7excl', 'B8nc', 'M2i', 'RESOLVE', 'RESOLVE-B4f', 'REPARSE-B2', 'REPARSE-B1', 'REPARSE-B5', 'IDLE50']
 DIAGS = ['none', 'log', 'all']
 REDUCED_JOBS = ['M2i', 'B3ss', 'B7excl', 'B4f', 'B6g', 'RESOLVE-B4f', 'REPARSE-B5', 'IDLE50']
 REDUCED_DIAGS = ['none', 'all']
@@ -147,8 +147,19 @@ def run_job(job, diag, ctx):
         ctx.prev_job = 'M2' if job == 'M2i' else job
         res_ = series_of(m.EquationSolver)
         return ('as', 'M2', res_) if job == 'M2i' else res_
-    if job in ('B1', 'B1nr', 'B2', 'B2nr', 'B3ss', 'B4f', 'B5', 'B5nr', 'B6g', 'B7excl', 'B8nc'):
-        text = {'B1': B1, 'B1nr': B1, 'B2': B2, 'B2nr': B2, 'B3ss': B3, 'B4f': B4, 'B5': B5, 'B5nr': B5, 'B6g': B6, 'B7excl': B7, 'B8nc': B8}[job]
+    if job == 'RESOLVE-B3plain':
+        # the solver that ran the steady-state search is re-solved with the search switched off: a plain solve of its block
+        if ctx.prev is None or ctx.prev_job != 'B3ss':
+            return None
+        try:
+            ctx.prev.ParameterSolveInitialSteadyState = False
+            ctx.prev.SolveEquation()
+        except Exception as e:
+            return ('as', 'B3', 'raised:' + type(e).__name__)
+        ctx.prev_job = 'B3'
+        return ('as', 'B3', series_of(ctx.prev))
+    if job in ('B1', 'B1nr', 'B2', 'B2nr', 'B3', 'B3ss', 'B4f', 'B5', 'B5nr', 'B6g', 'B7excl', 'B8nc'):
+        text = {'B1': B1, 'B1nr': B1, 'B2': B2, 'B2nr': B2, 'B3': B3, 'B3ss': B3, 'B4f': B4, 'B5': B5, 'B5nr': B5, 'B6g': B6, 'B7excl': B7, 'B8nc': B8}[job]
         try:
             s = EquationSolver(text, run_equation_reduction=not job.endswith('nr'))
             if job == 'B3ss':
